@@ -437,6 +437,15 @@ func typeNameError(s string) string {
 	return fmt.Sprintf("%d bytes starting %q", len(s), head)
 }
 
+// getSecretStringWithMaxSize is getSecretString for the size-capped readers.
+func (m *Message) getSecretStringWithMaxSize(ctx context.Context, maxSize int) (string, error) {
+	if sc, ok := m.stream.(secretCrypto); ok {
+		sc.PrepareCryptoForSecret()
+		defer sc.RestoreCryptoAfterSecret()
+	}
+	return m.GetStringWithMaxSize(ctx, maxSize)
+}
+
 func getClassAdFromMessageWithMaxSize(m *Message, maxSize int, ctx context.Context) (*classad.ClassAd, error) {
 	// Read number of expressions
 	numExprs, err := m.GetInt(ctx)
@@ -478,7 +487,17 @@ func getClassAdFromMessageWithMaxSize(m *Message, maxSize int, ctx context.Conte
 		// items, one counted expression -- see GetClassAdRawBody). Consume the secret
 		// as the real expression instead of desyncing on the marker.
 		if exprStr == SecretMarker {
-			exprStr, err = m.getSecretString(ctx)
+			if maxSize > 0 {
+				// The secret that follows the marker counts against the same budget:
+				// reading it unbounded would let a peer bypass the cap with a marker.
+				remainingBytes := maxSize - totalBytesRead
+				if remainingBytes <= 0 {
+					return nil, fmt.Errorf("ClassAd exceeds maximum size (%d bytes) while reading secret expression %d", maxSize, i)
+				}
+				exprStr, err = m.getSecretStringWithMaxSize(ctx, remainingBytes)
+			} else {
+				exprStr, err = m.getSecretString(ctx)
+			}
 			if err != nil {
 				return nil, fmt.Errorf("failed to read secret expression %d (expected %d): %w", i, numExprs, err)
 			}
